@@ -379,11 +379,13 @@ class PairCheck:
             if t['k'] != 'switch':
                 continue
             dl = op_local(t['discr'])
-            if dl is None:
+            if t['discr']['k'] not in ('copy', 'move'):
                 continue
             for kind, pat in unless:
                 if kind == 'none':
                     # switch on discriminant of an Option returned by call `pat`
+                    if dl is None:
+                        continue
                     src = None
                     for s in B.blocks[d]['stmts']:
                         if s['k'] == 'assign' and s['place']['l'] == dl and s['rv']['k'] == 'discr':
@@ -398,14 +400,16 @@ class PairCheck:
                         if not any(v == '0' for v, tb in t['targets']):
                             out.add((d, t['otherwise']))
                 elif t.get('discr_ty') == 'bool':
-                    desc = describe_local(B, dl)
+                    from panics import describe_operand as _dop
+                    desc = _dop(B, t['discr'])
                     neg = False
                     while desc.startswith('Not(') and desc.endswith(')'):
                         desc = desc[4:-1]
                         neg = not neg
                     if re.search(pat, desc):
                         false_t = [tb for v, tb in t['targets'] if v == '0']
-                        true_t = t['otherwise']
+                        one_t = [tb for v, tb in t['targets'] if v == '1']
+                        true_t = one_t[0] if one_t else t['otherwise']
                         want_true = (kind == 'true') != neg
                         if want_true:
                             out.add((d, true_t))
